@@ -61,6 +61,28 @@ def sweep(ctx):
                 walk(n)
                 if [id(x) for x in n.descendants] != [id(x) for x in pre]:
                     fails.append((label, 'descendants is the pre-order flattening', n.name))
+                # A-bs4-preorder, as instantiated by the get_descendants proof: for c = D[i]
+                D = pre
+                pos = {}
+                for i, c in enumerate(D):
+                    if id(c) in pos:
+                        fails.append((label, 'no node occurs twice among descendants', n.name))
+                    pos[id(c)] = i
+                for i, c in enumerate(D):
+                    size = len(list(c.descendants)) if isinstance(c, bs4.Tag) else 0
+                    after = i + 1 + size
+                    if after > len(D):
+                        fails.append((label, "a descendant's subtree lies inside", n.name))
+                    if c.next_sibling is not None and not (after < len(D) and D[after] is c.next_sibling):
+                        fails.append((label, 'the next sibling follows the subtree immediately', n.name))
+                    ld = c
+                    while isinstance(ld, bs4.Tag) and ld.contents:
+                        ld = ld.contents[-1]
+                    ne = ld.next_element
+                    if ne is None and after != len(D):
+                        fails.append((label, 'no next_element after the last descendant only at the very end', n.name))
+                    if ne is not None and pos.get(id(ne), len(D)) != after:
+                        fails.append((label, 'next_element of the last descendant is what follows the subtree', n.name))
             else:
                 if getattr(n, 'contents', None):
                     fails.append((label, 'strings have no contents', ''))
